@@ -192,7 +192,7 @@ def write_tree(d, files):
 
 
 Q_ALPHA = ["alternative bondtypes", "define X", "ifdef X", "ifndef X", "ifdef Y", "else", "endif", "include a", "include sub/b", "include sub2/b2", "include extra", "error",
-           "comment", "inline MC", "guarded bondtype"]
+           "comment", "star comment", "inline MC", "guarded bondtype"]
 T_ALPHA = sorted(SLOTS)
 
 
@@ -203,7 +203,7 @@ T_ALPHA = sorted(SLOTS)
                     "polyply.src.topology:Topology.from_gmx_topfile"],
            rejects=(), selector_only=True,
            must_cover=["read", "error directive", "malformed rejected", "conditional include taken", "conditional include skipped", "nested include", "repeated name",
-                       "same include string in two directories", "directives spelled with extra whitespace", "both alternatives of a conditional"],
+                       "same include string in two directories", "directives spelled with extra whitespace", "both alternatives of a conditional", "read through a symbolic link"],
            outside=["#define inside a conditional, nested conditionals (rejected by the reader by design)", "macros with values in conditions",
                     "data lines that continue a section across an #include", "the GROMACS include search path"],
            cfg={"path_timeout_s": 60},
@@ -259,7 +259,18 @@ def flatten_cond(sx, B):
     d = tempfile.mkdtemp(prefix="pverif_", dir=os.environ.get("TMPDIR"))
     try:
         write_tree(d, FILES)
-        (Path(d) / "system.top").write_text(text)
+        via_link = sx.sel("top_file_reached_through", ["its own path", "a symbolic link in the include directory"]) != "its own path"
+        if via_link:
+            # the file lives elsewhere (next to other files with the names used in its #include lines); it is read through a link
+            # in the directory of the include tree: includes are resolved relative to the file as it is named
+            os.makedirs(os.path.join(d, "store", "sub"))
+            for rel in ("ff.itp", "a.itp", "extra.itp", "sub/b.itp"):
+                Path(d, "store", rel).write_text(DECOY)
+            (Path(d) / "store" / "system.top").write_text(text)
+            os.symlink(os.path.join(d, "store", "system.top"), os.path.join(d, "system.top"))
+            sx.cover("read through a symbolic link")
+        else:
+            (Path(d) / "system.top").write_text(text)
         absfiles = {os.path.normpath(os.path.join(d, rel)): t for rel, t in FILES.items()}
         expect_exc = None
         flat = None
